@@ -398,39 +398,40 @@ def run_verus_unit(unit, root, timeout):
 
 
 def run_verus_canary(unit, root, timeout):
-    """vacuity guard: every contracted exec fn gets `ensures false` appended; each must FAIL."""
+    """vacuity guard: every contracted exec fn gets `proof { assert(false); }` as first statement of its body; each must FAIL
+    (a contradictory `requires` would make it pass). Callee contracts are left intact, so callers are not poisoned."""
     out_rs = os.path.join(root, unit['name'] + '.rs')
     s = open(out_rs).read()
     fns = unit.get('canary_fns')
     if not fns:
         return {'ok': True, 'checked': 0, 'note': 'no canary functions listed'}
     can = os.path.join(root, unit['name'] + '_canary.rs')
-    n = 0
+    inserts = []
+    sc = extract.Scan(s)
     for fn in fns:
-        # find `fn <fn>` then its `ensures` clause -> add `false,` right after 'ensures'
         m = re.search(r'\bfn\s+' + re.escape(fn) + r'\b', s)
         if not m:
             return {'ok': False, 'checked': 0, 'note': 'canary: fn not found ' + fn}
-        e = re.compile(r'\bensures\b').search(s, m.end())
-        if not e:
-            return {'ok': False, 'checked': 0, 'note': 'canary: no ensures for ' + fn}
-        s = s[:e.end()] + ' false,' + s[e.end():]
-        n += 1
+        brace = None
+        for pos in sc.find_at_depth0(m.end(), len(s), lambda q: s[q] == '{'):
+            brace = pos; break
+        if brace is None:
+            return {'ok': False, 'checked': 0, 'note': 'canary: no body for ' + fn}
+        inserts.append(brace + 1)
+    for pos in sorted(inserts, reverse=True):
+        s = s[:pos] + ' proof { assert(false); } ' + s[pos:]
     open(can, 'w').write(s)
-    rc, text, wall = sh(['verus', can, '--output-json', '--num-threads', '8'], cwd=root, env=base_env(), timeout=timeout)
-    bad = []
+    rc, text, wall = sh(['verus', can, '--output-json', '--num-threads', '8', '--multiple-errors', '100'], cwd=root, env=base_env(), timeout=timeout)
     failed_fns = set()
     lines = s.split('\n')
-    for m in re.finditer(r'error: [^\n]*\n\s*--> [^\n]*?:(\d+):(\d+)', text):
+    for m in re.finditer(r'error: assertion failed\n\s*--> [^\n]*?:(\d+):(\d+)', text):
         ln = int(m.group(1))
         for k in range(min(ln, len(lines)) - 1, -1, -1):
             mm = re.search(r'\bfn\s+(\w+)', lines[k])
             if mm:
                 failed_fns.add(mm.group(1)); break
-    for fn in fns:
-        if fn not in failed_fns:
-            bad.append(fn)
-    return {'ok': not bad, 'checked': n, 'vacuous': bad, 'wall_s': round(wall, 1)}
+    bad = [fn for fn in fns if fn not in failed_fns]
+    return {'ok': not bad, 'checked': len(fns), 'vacuous': bad, 'wall_s': round(wall, 1)}
 
 
 # ----------------------------------------------------------------------------------------------- main
